@@ -288,7 +288,8 @@ def run_class(ctx, key):
                 except Exception:
                     continue
                 if not CC.same(a, b, v):
-                    ctx.violation('%s|mismatch:%s' % (cname, p),
+                    sub = CC.diff_path(a, b, v)
+                    ctx.violation('%s|mismatch:%s%s' % (cname, p, '.' + sub if sub else ''),
                                   'field %s of %s decodes to %s, original %s (%s)' % (p, cname, short(b), short(a), v.name),
                                   {'hex': data.hex()[:400], 'chosen': {q: [c[0], short(c[1])] for q, c in chosen.items()}})
             if all_defined and CC.has_own_eq(x) and not any(c[1] == [] for c in chosen.values()) and not (
